@@ -283,3 +283,154 @@ def make_backend(store, flavour='sync'):
                 self.store._exit()
 
     return AsyncMemBackend(store)
+
+
+# --------------------------------------------------------------------------- the real Local backend, observed
+# Histories can also run on replicat's own Local adapter (its clean() hook, temporaries and directory handling only exist
+# there). DirStore gives the harness the same view of it as Store does of the in-memory backends.
+
+
+class DirMap:
+    """name -> bytes view of every regular file below a directory (temporaries included: they are files an observer sees)."""
+
+    def __init__(self, root):
+        import os
+        self.root = root
+        os.makedirs(root, exist_ok=True)
+
+    def _p(self, k):
+        import os
+        return os.path.join(self.root, *k.split('/'))
+
+    def __getitem__(self, k):
+        try:
+            with open(self._p(k), 'rb') as f:
+                return f.read()
+        except (FileNotFoundError, NotADirectoryError, IsADirectoryError):
+            raise KeyError(k) from None
+
+    def __setitem__(self, k, v):
+        import os
+        p = self._p(k)
+        os.makedirs(os.path.dirname(p), exist_ok=True)
+        with open(p, 'wb') as f:
+            f.write(v)
+
+    def __delitem__(self, k):
+        import os
+        try:
+            os.unlink(self._p(k))
+        except FileNotFoundError:
+            raise KeyError(k) from None
+
+    def __contains__(self, k):
+        import os
+        return os.path.isfile(self._p(k))
+
+    def __iter__(self):
+        import os
+        out = []
+        for dp, _, fns in os.walk(self.root):
+            for fn in fns:
+                out.append(os.path.relpath(os.path.join(dp, fn), self.root).replace(os.sep, '/'))
+        return iter(sorted(out))
+
+    def __len__(self):
+        return sum(1 for _ in self)
+
+    def keys(self):
+        return list(self)
+
+    def items(self):
+        return [(k, self[k]) for k in self]
+
+    def get(self, k, default=None):
+        try:
+            return self[k]
+        except KeyError:
+            return default
+
+    def pop(self, k, *default):
+        try:
+            v = self[k]
+        except KeyError:
+            if default:
+                return default[0]
+            raise
+        del self[k]
+        return v
+
+    def update(self, other):
+        for k, v in dict(other).items():
+            self[k] = v
+
+
+class DirStore(Store):
+    def __init__(self, root):
+        super().__init__()
+        self.root = root
+        self.objects = DirMap(root)
+
+    def copy(self):
+        return Store(dict(self.objects.items()))
+
+    def snapshot_objects(self):
+        return dict(self.objects.items())
+
+
+def make_observed_local(store):
+    """replicat's Local adapter on store.root; every call is logged / can be failed through the DirStore."""
+    from replicat.backends.local import Local
+
+    class ObservedLocal(Local):
+        def __init__(self):
+            super().__init__(store.root)
+            self.store = store
+
+        def _around(self, op, name, fn, slot_limited=True):
+            o = store._enter(op, name, slot_limited)
+            try:
+                store._maybe_fail(o, op, name)
+                return fn()
+            finally:
+                store._exit(slot_limited)
+
+        def exists(self, name):
+            return self._around('exists', name, lambda: Local.exists(self, name))
+
+        def upload(self, name, data):
+            def fn():
+                Local.upload(self, name, data)
+                store.history.append((name, bytes(data)))
+                store.mutations += 1
+            return self._around('upload', name, fn)
+
+        def upload_stream(self, name, stream, length, chunk_size=128_000):
+            def fn():
+                store.chunk_sizes.append(chunk_size)
+                Local.upload_stream(self, name, stream, length, chunk_size)
+                store.history.append((name, store.objects[name]))
+                store.mutations += 1
+            return self._around('upload_stream', name, fn)
+
+        def download(self, name):
+            return self._around('download', name, lambda: Local.download(self, name))
+
+        def download_stream(self, name, stream, chunk_size=128_000):
+            def fn():
+                store.chunk_sizes.append(chunk_size)
+                return Local.download_stream(self, name, stream, chunk_size)
+            return self._around('download_stream', name, fn)
+
+        def list_files(self, prefix=''):
+            o = store._enter('list_files', prefix, slot_limited=False)
+            store._maybe_fail(o, 'list_files', prefix)
+            return list(Local.list_files(self, prefix))
+
+        def delete(self, name):
+            def fn():
+                Local.delete(self, name)
+                store.mutations += 1
+            return self._around('delete', name, fn)
+
+    return ObservedLocal()
